@@ -2,6 +2,8 @@ import Rangers.Generated.Bn256Consts
 import Mathlib.Tactic.NormNum.Prime
 import Rangers.Proofs.C13Dkg
 import Rangers.Proofs.C13RecoverMap
+import Rangers.Proofs.C13SignGen
+import Mathlib.Data.List.Dedup
 /-!
 # C13 — any threshold subset of group members yields the same valid group signature
 
@@ -262,6 +264,54 @@ theorem dkg_any_threshold_subset_same_valid_signature_partial [Fact r.Prime]
         obtain ⟨v, hv⟩ := memberKey_isSome (r := r) dealers x hne (fun cs h => (hk cs h).1)
         simp only [hv, Option.getD_some]
         exact memberKey_eval dealers x v hv) hm m hkm hd hhon c hc
+
+/-- **sign_generator_any_arrival_order** (`_partial`: ids distinct mod `r`): the node's
+    `GroupSignGenerator` (`AddWitnessSign` per arriving share), fed with honest shares in *any*
+    arrival order, with repeated senders and late arrivals, and whatever iteration order the witness
+    map has at the moment of recovery, ends up holding `gsk·hm` as soon as `k` distinct members have
+    been heard — and never changes it afterwards. So the block signature and the random beacon do
+    not depend on which members happened to answer first. -/
+theorem sign_generator_any_arrival_order_partial [Fact r.Prime]
+    (ops : Ops G) (hops : LawfulOps r ops) (isValid : G → Bool)
+    (dealers : List (List Nat)) (k : Nat) (hk0 : 0 < k) (hne : dealers ≠ [])
+    (hk : ∀ cs ∈ dealers, cs ≠ [] ∧ cs.length ≤ k) (hm : G)
+    (gsk : Nat) (hg : groupSecret r dealers = some gsk) (hval : isValid (ops.mul hm gsk) = true)
+    (arr : List (Nat × Option G × Choice (Nat × Option G)))
+    (hhon : ∀ a ∈ arr, a.2.1 = some (ops.mul hm ((memberKey r dealers a.1).getD 0)) ∧
+      ∀ l, (a.2.2.ord2 l).Perm l)
+    (hmod : ∀ x ∈ arr.map (·.1), ∀ y ∈ arr.map (·.1), x % r = y % r → x = y)
+    (hcount : k ≤ (arr.map (·.1)).dedup.length) :
+    ∃ st, feed ops r isValid (SignGen.new k) arr = .ok st ∧ st.groupSign = some (ops.mul hm gsk) := by
+  have hge := groupSecret_eval dealers gsk hg
+  have htarget : ops.mul hm gsk = (groupPoly r dealers).eval 0 • hm := by rw [hops.mul_eq, hge]
+  rw [htarget] at hval ⊢
+  obtain ⟨st, hf, hinv, hall⟩ := feed_inv ops hops isValid (groupPoly r dealers) k hk0
+    (degree_groupPoly_lt dealers k (fun cs h => (hk cs h).2))
+    (fun x => (memberKey r dealers x).getD 0)
+    (fun x => by
+      obtain ⟨v, hv⟩ := memberKey_isSome (r := r) dealers x hne (fun cs h => (hk cs h).1)
+      simp only [hv, Option.getD_some]
+      exact memberKey_eval dealers x v hv) hm hval arr (SignGen.new k)
+    ⟨rfl, Or.inr ⟨rfl, by simpa [SignGen.new] using hk0, by simp [SignGen.new], by simp [SignGen.new]⟩⟩
+    hhon (by simpa [SignGen.new] using hmod)
+  refine ⟨st, hf, ?_⟩
+  rcases hinv.cases with h1 | ⟨h1, hlen, hnd, _⟩
+  · exact h1
+  · exfalso
+    have hsub : (arr.map (·.1)).dedup ⊆ st.witnesses.map Prod.fst := by
+      intro x hx
+      exact hall h1 x (by simpa [SignGen.new] using List.mem_dedup.1 hx)
+    have := (List.subperm_of_subset (List.nodup_dedup _) hsub).length_le
+    simp only [List.length_map] at this
+    omega
+
+/-- non-vacuity: threshold 2, arrivals 15, 15 (repeat), 1, 3 (late) over `r = 13`; flags and final
+    signature as the model computes them. -/
+example :
+    feed (zops 13) 13 (fun _ => true) (SignGen.new 2)
+      ([15, 15, 1, 3].map (fun x =>
+        (x, some ((zops 13).mul 2 ((memberKey 13 [[1, 2], [3, 4]] x).getD 0)), ⟨id, [], List.reverse⟩)))
+      = .ok ⟨2, [(15, some 6), (1, some 7)], some 8⟩ := by decide
 
 /-- non-vacuity of the headline: `r = 13`, all three groups `ZMod 13`, pairing = multiplication,
     two dealers with `k = 2`, three members (ids 1, 15, 3), message point 2: the hypotheses hold and
